@@ -66,13 +66,13 @@ type Ty struct {
 	under    *Ty    // n: underlying type
 }
 
-func basic(name string) *Ty            { return &Ty{k: 'b', name: name} }
-func param(i int, name string) *Ty     { return &Ty{k: 'p', idx: i, name: name} }
-func sliceOf(e *Ty) *Ty                { return &Ty{k: 's', el: []*Ty{e}} }
-func arrayOf(n int, e *Ty) *Ty         { return &Ty{k: 'a', n: n, el: []*Ty{e}} }
-func mapOf(k, v *Ty) *Ty               { return &Ty{k: 'm', el: []*Ty{k, v}} }
-func ptrTo(e *Ty) *Ty                  { return &Ty{k: '*', el: []*Ty{e}} }
-func chanOf(e *Ty) *Ty                 { return &Ty{k: 'c', el: []*Ty{e}} }
+func basic(name string) *Ty             { return &Ty{k: 'b', name: name} }
+func param(i int, name string) *Ty      { return &Ty{k: 'p', idx: i, name: name} }
+func sliceOf(e *Ty) *Ty                 { return &Ty{k: 's', el: []*Ty{e}} }
+func arrayOf(n int, e *Ty) *Ty          { return &Ty{k: 'a', n: n, el: []*Ty{e}} }
+func mapOf(k, v *Ty) *Ty                { return &Ty{k: 'm', el: []*Ty{k, v}} }
+func ptrTo(e *Ty) *Ty                   { return &Ty{k: '*', el: []*Ty{e}} }
+func chanOf(e *Ty) *Ty                  { return &Ty{k: 'c', el: []*Ty{e}} }
 func instOf(gt *GType, args ...*Ty) *Ty { return &Ty{k: 'i', gt: gt, el: args} }
 func funcOf(params []*Ty, results []*Ty) *Ty {
 	return &Ty{k: 'f', el: append(append([]*Ty{}, params...), results...), nres: len(results)}
